@@ -14,7 +14,7 @@ ENVS = [
 ]
 
 def run(ck):
-    ck.level = "translation_validation"
+    ck.level = "proof"
     ck.cov["rule"] = ("every string over {$ ~ A _ a / : { }} up to length 5 (quick) / 7 (thorough) plus '1'-containing and seeded random longer strings, "
                       "each under 7 environments (set, unset, empty values, values containing $ and ~, HOME unset, duplicates, environ == NULL); "
                       "non-trivial = string containing '$' or '~'")
